@@ -1,7 +1,8 @@
 ----------------------------- MODULE TraceNewCtx -----------------------------
 (* Trace validation for the registration of new thread contexts (C03): executions of the REAL backend thread and REAL      *)
 (* first log calls of new threads recorded by harness/h_stop in fine-grained mode. Contract: once the backend has run on    *)
-(* (several full loop iterations reading the newest values), every statement the new threads logged has been written.     *)
+(* (several full loop iterations reading the newest values), every statement the new threads logged has been written (C03); *)
+(* in the flush variant each new thread then calls flush_log(), which must return while the backend keeps running (C06).   *)
 EXTENDS Integers, Sequences, TLC, Json, IOUtils
 TraceLog == ndJsonDeserialize(IOEnv.TRACE)
 VARIABLES l, m
@@ -9,7 +10,9 @@ vars == <<l, m>>
 M0 == [ok |-> TRUE, why |-> ""]
 Fail(x, why) == IF x.ok THEN [x EXCEPT !.ok = FALSE, !.why = why] ELSE x
 MStep(x, e) ==
-  CASE e.e = "quiet" -> IF e.delivered >= e.zlogged THEN x
+  CASE e.e = "quiet" -> IF e.flushstuck > 0
+                        THEN Fail(x, "flush_log() of a new thread does not return although the backend keeps running: its context was not picked up")
+                        ELSE IF e.delivered >= e.zlogged THEN x
                         ELSE Fail(x, "a new thread's statement is never written: its context was not picked up by the backend")
     [] e.e = "crash" -> Fail(x, "the process crashed or hung")
     [] OTHER -> x
